@@ -107,9 +107,12 @@ pub fn run(ctx: &Ctx) -> Report {
     let d = if ctx.quick() { 1 } else { 2 };
     let mut jobs = vec![];
     for s in scenarios(ctx.quick()) {
+        // quick: the schedule search goes one deviation deep for the kinds a copy could write through or into
+        // (file, dangling link, directory); FIFO and link-to-file collisions run under the two base schedules
+        let deep = !ctx.quick() || s.name.contains("noclobber-file-at") || s.name.contains("noclobber-dangling-link-at") || s.name.contains("noclobber-dir-at") || !s.name.contains("-at-");
         let s = Arc::new(s);
         for b in base_specs() {
-            jobs.push((s.clone(), b, d));
+            jobs.push((s.clone(), b, if deep { d } else { 0 }));
         }
     }
     let n = jobs.len() / 2;
